@@ -91,7 +91,11 @@ class GenericValue(Snapshot):
 
                 old_items = adapter.items(old_value, node)
                 new_items = adapter.items(value, node)
-                if len(old_items) != len(new_items):
+                if len(old_items) != len(new_items) or (
+                    # the keys are part of the value
+                    isinstance(old_value, dict)
+                    and list(old_value.keys()) != list(value.keys())
+                ):
                     raise UsageError(
                         "snapshot value should not change. Use Is(...) for dynamic snapshot parts."
                     )
